@@ -35,6 +35,7 @@ type scenario struct {
 	Seq0      int      `json:"seq0"`
 	PsSplit   bool     `json:"ps_split"`      // a frame in two PES packets
 	CustSplit bool     `json:"cust_split"`    // customize: parameter sets in FeedAvPacket calls of their own, every call through one reused buffer
+	TsWrap    bool     `json:"ts_wrap"`       // rtsp: the RTP timestamps of both tracks start just below 2^32 and wrap within the first frames
 	PsTcp     bool     `json:"ps_tcp"`        // packets arrive as over TCP: read into one buffer that every packet reuses
 	PsNoPts   bool     `json:"ps_no_pts"`     // ... the second one without PTS (continuation)
 	AacAggr   int      `json:"aac_aggregate"` // RTSP: up to this many consecutive AAC frames per RTP packet (0 / 1: one each)
@@ -366,6 +367,12 @@ func run(sc scenario) (res []result, compared int, infra error) {
 			return
 		}
 		vseq, aseq := uint16(sc.Seq0), uint16(sc.Seq0)
+		var vBase, aBase uint32
+		if sc.TsWrap {
+			// the publisher's RTP clocks started long ago: both wrap within the first frames (what lal serves is
+			// the source's time up to one constant per track all the same)
+			vBase, aBase = uint32(1<<32-2*3600+7), uint32(1<<32-1500)
+		}
 		vtrack, atrack := 0, 0
 		if sc.Video != "" {
 			atrack = 1
@@ -386,7 +393,7 @@ func run(sc scenario) (res []result, compared int, infra error) {
 					pt = 98
 				}
 				for i, x := range pl {
-					vp = append(vp, ref.BuildRtp(ref.Rtp{Marker: i == len(pl)-1, PT: pt, Seq: vseq, Ts: f.ts, Ssrc: 7, Payload: x}))
+					vp = append(vp, ref.BuildRtp(ref.Rtp{Marker: i == len(pl)-1, PT: pt, Seq: vseq, Ts: f.ts + vBase, Ssrc: 7, Payload: x}))
 					vseq++
 				}
 			} else {
@@ -395,11 +402,11 @@ func run(sc scenario) (res []result, compared int, infra error) {
 					continue
 				}
 				if sc.Audio == "aac" {
-					ap = append(ap, ref.BuildRtp(ref.Rtp{Marker: true, PT: 97, Seq: aseq, Ts: f.ts, Ssrc: 8, Payload: ref.PackAacHbr(f.au)}))
+					ap = append(ap, ref.BuildRtp(ref.Rtp{Marker: true, PT: 97, Seq: aseq, Ts: f.ts + aBase, Ssrc: 8, Payload: ref.PackAacHbr(f.au)}))
 				} else if sc.Audio == "opus" {
-					ap = append(ap, ref.BuildRtp(ref.Rtp{Marker: true, PT: 111, Seq: aseq, Ts: f.ts, Ssrc: 8, Payload: f.au}))
+					ap = append(ap, ref.BuildRtp(ref.Rtp{Marker: true, PT: 111, Seq: aseq, Ts: f.ts + aBase, Ssrc: 8, Payload: f.au}))
 				} else {
-					ap = append(ap, ref.BuildRtp(ref.Rtp{Marker: true, PT: 8, Seq: aseq, Ts: f.ts, Ssrc: 8, Payload: f.au}))
+					ap = append(ap, ref.BuildRtp(ref.Rtp{Marker: true, PT: 8, Seq: aseq, Ts: f.ts + aBase, Ssrc: 8, Payload: f.au}))
 				}
 				aseq++
 			}
@@ -410,7 +417,7 @@ func run(sc scenario) (res []result, compared int, infra error) {
 			if sc.AacFrag && len(f.au)+4 > sc.Limit {
 				frags := ref.PackAacHbrFrag(f.au, sc.Limit)
 				for k, p := range frags {
-					ap = append(ap, ref.BuildRtp(ref.Rtp{Marker: k == len(frags)-1, PT: 97, Seq: aseq, Ts: f.ts, Ssrc: 8, Payload: p}))
+					ap = append(ap, ref.BuildRtp(ref.Rtp{Marker: k == len(frags)-1, PT: 97, Seq: aseq, Ts: f.ts + aBase, Ssrc: 8, Payload: p}))
 					aseq++
 				}
 				i++
@@ -428,7 +435,7 @@ func run(sc scenario) (res []result, compared int, infra error) {
 			for k := 0; k < n; k++ {
 				aus = append(aus, aacPend[i+k].au)
 			}
-			ap = append(ap, ref.BuildRtp(ref.Rtp{Marker: true, PT: 97, Seq: aseq, Ts: f.ts, Ssrc: 8, Payload: ref.PackAacHbrMulti(aus)}))
+			ap = append(ap, ref.BuildRtp(ref.Rtp{Marker: true, PT: 97, Seq: aseq, Ts: f.ts + aBase, Ssrc: 8, Payload: ref.PackAacHbrMulti(aus)}))
 			aseq++
 			i += n
 		}
@@ -796,6 +803,7 @@ func run(sc scenario) (res []result, compared int, infra error) {
 					add("video-count", "%d NAL units received from published NAL %d on; the sequence has %d NALs before its %d-NAL tail", len(gv), start, mustV, len(want)-mustV)
 				}
 				var c0 int64
+				vRebased := false
 				for k, g := range gv {
 					if start+k >= len(want) {
 						break
@@ -816,6 +824,11 @@ func run(sc scenario) (res []result, compared int, infra error) {
 					d := int64(g.ts) - int64(wn.ts)
 					if k == 0 {
 						c0 = d
+					}
+					if (d-c0 > 1 || d-c0 < -1) && sc.TsWrap && !vRebased && d-c0 < 1000 && d-c0 > -1000 {
+						// where the 32-bit RTP timestamp wraps lal continues with the previous packet's interval (it does
+						// not know the clock rate there): the track's constant may move once, by less than a second
+						vRebased, c0 = true, d
 					}
 					if d-c0 > 1 || d-c0 < -1 {
 						add("video-timestamp", "NAL %d: message timestamp %d for source time %d ms (track offset %d)", k, g.ts, wn.ts, c0)
@@ -853,6 +866,7 @@ func run(sc scenario) (res []result, compared int, infra error) {
 					add("audio-late-start", "audio-only stream: the first frame received is published frame %d", start)
 				}
 				var c0 int64
+				aRebased := false
 				for k, g := range ga {
 					if start+k >= len(pubA) {
 						break
@@ -865,6 +879,9 @@ func run(sc scenario) (res []result, compared int, infra error) {
 					d := int64(g.ts) - f.ms
 					if k == 0 {
 						c0 = d
+					}
+					if (d-c0 > 1 || d-c0 < -1) && sc.TsWrap && !aRebased && d-c0 < 1000 && d-c0 > -1000 {
+						aRebased, c0 = true, d
 					}
 					if d-c0 > 1 || d-c0 < -1 {
 						add("audio-timestamp-drift", "audio frame %d: message timestamp %d for source time %d ms at %d Hz (track offset %d): drift %d ms", start+k, g.ts, f.ms, sc.Rate, c0, d-c0)
@@ -964,6 +981,11 @@ func main() {
 					b4 := base
 					b4.Aggr = true
 					cases = append(cases, b4)
+					if c.v != "" && c.a != "" { // (a single-track stream has no A/V queue, and lal handles the wrap only there: recorded in DESIGN.md, not claimed)
+						b16 := base
+						b16.TsWrap = true
+						cases = append(cases, b16)
+					}
 				}
 				if src == "rtsp" && c.a == "aac" {
 					hasA := false
@@ -1043,7 +1065,7 @@ func main() {
 		r.AddTransitions(int64(len(sc.Seq) + 5))
 		r.AddTraces(1)
 		for _, v := range res {
-			r.Violation(sc.Source+"/"+v.key, fmt.Sprintf("[%s %s+%s@%d seq=%v limit=%d aggr=%v perturb=%s seq0=%d split=%v/%v tcp=%v cust-split=%v aac-aggr=%d aac-frag=%v] %s", sc.Source, sc.Video, sc.Audio, sc.Rate, sc.Seq, sc.Limit, sc.Aggr, sc.Perturb, sc.Seq0, sc.PsSplit, sc.PsNoPts, sc.PsTcp, sc.CustSplit, sc.AacAggr, sc.AacFrag, v.what), sc)
+			r.Violation(sc.Source+"/"+v.key, fmt.Sprintf("[%s %s+%s@%d seq=%v limit=%d aggr=%v perturb=%s seq0=%d split=%v/%v tcp=%v cust-split=%v ts-wrap=%v aac-aggr=%d aac-frag=%v] %s", sc.Source, sc.Video, sc.Audio, sc.Rate, sc.Seq, sc.Limit, sc.Aggr, sc.Perturb, sc.Seq0, sc.PsSplit, sc.PsNoPts, sc.PsTcp, sc.CustSplit, sc.TsWrap, sc.AacAggr, sc.AacFrag, v.what), sc)
 		}
 		if compared > 0 {
 			r.Class(fmt.Sprintf("%+v", sc))
